@@ -14,9 +14,9 @@ res = {}
 try:
     env = dict(os.environ, PYTHONPATH=wt, PYTHONDONTWRITEBYTECODE="1")
     demo = os.path.join(out, "demo.py")
-    src = open(demo).read().replace(f"/tmp/mut/{prop}", wt)   # demos may hard-code their worktree path
+    src = open(demo).read().replace(f"/tmp/mut3/{prop}-out", out).replace(f"/tmp/mut3/{prop}", wt).replace(f"/tmp/mut/{prop}", wt)   # demos may hard-code their worktree path
     d2 = os.path.join(tempfile.gettempdir(), f"demo_{new}.py"); open(d2, "w").write(src)
-    r0 = subprocess.run(["/venv/bin/python", d2], env=env, capture_output=True, text=True, timeout=900)
+    r0 = subprocess.run(["/venv/bin/python", d2], env=env, capture_output=True, text=True, timeout=900, cwd=wt)
     res["demo_exit_without_patch"] = r0.returncode
     a = subprocess.run(["git", "-C", wt, "apply", os.path.join(out, "patch.diff")], capture_output=True, text=True)
     res["patch_applies_to_clean_checkout"] = a.returncode == 0
@@ -24,7 +24,7 @@ try:
         b = subprocess.run(["python3", os.path.join(V, "tools", "baseline.py"), wt], capture_output=True, text=True)
         res["stable_baseline_626_pass_with_patch"] = b.returncode == 0
         res["baseline_line"] = b.stdout.strip().splitlines()[0] if b.stdout.strip() else ""
-        r1 = subprocess.run(["/venv/bin/python", d2], env=env, capture_output=True, text=True, timeout=900)
+        r1 = subprocess.run(["/venv/bin/python", d2], env=env, capture_output=True, text=True, timeout=900, cwd=wt)
         res["demo_exit_with_patch"] = r1.returncode
         res["demo_tail_with_patch"] = (r1.stdout + r1.stderr)[-400:]
     os.unlink(d2)
@@ -40,7 +40,7 @@ if ok:
     files = sorted({l[6:].strip() for l in open(os.path.join(dst, "patch.diff")) if l.startswith("+++ b/")})
     json.dump({"id": new, "property": prop, "files": files,
                "needs_to_manifest": "see notes.md (written by the independent sub-agent that produced the change)",
-               "origin": "independent sub-agent given only the property text and its own scratch worktree of /repo HEAD (round 2, after the fix: commits)",
+               "origin": "independent sub-agent given only the property text and its own scratch worktree of /repo HEAD (after the fix: commits)",
                "confirmed": {**res, "how": "tools/confirm_mutant.py run by the main session in a fresh scratch worktree"},
                "detected_by": None}, open(os.path.join(dst, "meta.json"), "w"), indent=1)
 sys.exit(0 if ok else 1)
